@@ -172,3 +172,95 @@ Proof.
       * specialize (IH (Node KTd bs dv nm []) bs dv (coh_fresh _ _ _ _ H3)).
         destruct (set_non_tensor (k2 :: rest') (Node KTd bs dv nm [])) as [c' o]. cbn [fst] in *. now apply rebuild_coh.
 Qed.
+
+(* ---- in-place select / exclude / flatten_keys: entries are only removed, moved up, or replaced by pruned versions ---- *)
+Lemma sel_pass1_coh : forall es bs dv strict keys src g src' g',
+  coh_ents bs dv es = true -> coh_ents bs dv src = true ->
+  sel_pass1 es strict keys src g = Some (src', g') -> coh_ents bs dv src' = true.
+Proof.
+  intros es bs dv strict. induction keys as [|key r IH]; intros src g src' g' He Hs H; cbn [sel_pass1] in H.
+  - now injection H as <- <-.
+  - destruct key as [|k sub]; [discriminate|].
+    destruct (aget k es) as [v|] eqn:Eg.
+    + assert (Hs' : coh_ents bs dv (aset k v src) = true).
+      { apply coh_ents_aset; [exact Hs|]. exact (coh_ents_aget _ _ _ _ _ He Eg). }
+      exact (IH _ _ _ _ He Hs' H).
+    + destruct strict; [discriminate|]. exact (IH _ _ _ _ He Hs H).
+Qed.
+
+Lemma sel_pass2_coh : forall rec bs dv,
+  (forall subs c, coh bs dv c = true -> coh bs dv (fst (rec subs c)) = true) ->
+  forall g src es,
+  coh_ents bs dv src = true -> coh_ents bs dv es = true ->
+  coh_ents bs dv (fst (fst (sel_pass2 rec g src es))) = true /\ coh_ents bs dv (snd (fst (sel_pass2 rec g src es))) = true.
+Proof.
+  intros rec bs dv Hrec. induction g as [|[k subs] r IH]; intros src es Hs He; cbn [sel_pass2]; [auto|].
+  destruct (aget k src) as [[|[] cb cd cn ce]|] eqn:Eg; cbn [fst snd]; auto.
+  pose proof (coh_ents_aget _ _ _ _ _ Hs Eg) as Hc. specialize (Hrec subs _ Hc).
+  destruct (rec subs (Node KTd cb cd cn ce)) as [c' o]. cbn [fst] in Hrec.
+  assert (H1 : coh_ents bs dv (aset k c' src) = true) by now apply coh_ents_aset.
+  assert (H2 : coh_ents bs dv (aset k c' es) = true) by now apply coh_ents_aset.
+  destruct o; cbn [fst snd]; auto.
+Qed.
+
+Lemma select_in_coh : forall fuel keys strict self p d,
+  coh p d self = true -> coh p d (fst (select_in fuel keys strict self)) = true.
+Proof.
+  induction fuel as [|fuel IH]; intros keys strict self p d Hc; [exact Hc|].
+  cbn [select_in]. destruct self as [|[] bs dv nm es]; try exact Hc.
+  pose proof Hc as Hall. apply coh_node_iff in Hc as (H1 & H2 & H3 & H4).
+  destruct (sel_pass1 es strict keys [] []) as [[src g]|] eqn:E1; [|exact Hall].
+  pose proof (sel_pass1_coh _ _ _ _ _ _ _ _ _ H4 (coh_ents_nil bs dv) E1) as Hsrc.
+  destruct (sel_pass2_coh (fun subs c => select_in fuel subs strict c) bs dv (fun subs c Hcc => IH subs strict c bs dv Hcc) g src es Hsrc H4) as [Ha Hb].
+  destruct (sel_pass2 (fun subs c => select_in fuel subs strict c) g src es) as [[src' es'] o]. cbn [fst snd] in *.
+  destruct o; cbn [fst]; apply coh_node_iff; auto.
+Qed.
+
+Lemma exc_pass1_coh : forall bs dv keys es g es' g',
+  coh_ents bs dv es = true -> exc_pass1 keys es g = (es', g') -> coh_ents bs dv es' = true.
+Proof.
+  intros bs dv. induction keys as [|key r IH]; intros es g es' g' He H; cbn [exc_pass1] in H.
+  - now injection H as <- <-.
+  - destruct key as [|k [|k2 sub]].
+    + exact (IH _ _ _ _ He H).
+    + exact (IH _ _ _ _ (coh_ents_adel _ _ _ k He) H).
+    + exact (IH _ _ _ _ He H).
+Qed.
+
+Lemma exc_pass2_coh : forall rec bs dv,
+  (forall subs c, coh bs dv c = true -> coh bs dv (fst (rec subs c)) = true) ->
+  forall g es, coh_ents bs dv es = true -> coh_ents bs dv (fst (exc_pass2 rec g es)) = true.
+Proof.
+  intros rec bs dv Hrec. induction g as [|[k subs] r IH]; intros es He; cbn [exc_pass2]; [exact He|].
+  destruct (aget k es) as [[|[] cb cd cn ce]|] eqn:Eg; cbn [fst]; auto.
+  pose proof (coh_ents_aget _ _ _ _ _ He Eg) as Hc. specialize (Hrec subs _ Hc).
+  destruct (rec subs (Node KTd cb cd cn ce)) as [c' o]. cbn [fst] in Hrec.
+  assert (H2 : coh_ents bs dv (aset k c' es) = true) by now apply coh_ents_aset.
+  destruct o; cbn [fst]; auto.
+Qed.
+
+Lemma exclude_in_coh : forall fuel keys self p d,
+  coh p d self = true -> coh p d (fst (exclude_in fuel keys self)) = true.
+Proof.
+  induction fuel as [|fuel IH]; intros keys self p d Hc; [exact Hc|].
+  cbn [exclude_in]. destruct self as [|[] bs dv nm es]; try exact Hc.
+  destruct keys as [|key r]; [exact Hc|].
+  apply coh_node_iff in Hc as (H1 & H2 & H3 & H4).
+  destruct (exc_pass1 (key :: r) es []) as [es1 g] eqn:E1.
+  pose proof (exc_pass1_coh _ _ _ _ _ _ _ H4 E1) as He1.
+  pose proof (exc_pass2_coh (fun subs c => exclude_in fuel subs c) bs dv (fun subs c Hcc => IH subs c bs dv Hcc) g es1 He1) as He2.
+  destruct (exc_pass2 (fun subs c => exclude_in fuel subs c) g es1) as [es2 o]. cbn [fst] in *.
+  apply coh_node_iff. auto.
+Qed.
+
+Lemma flatten_in_coh : forall sep self p d, coh p d self = true -> coh p d (fst (flatten_in sep self)) = true.
+Proof.
+  intros sep self p d Hc. destruct self as [|[] bs dv nm es]; try exact Hc. cbn [flatten_in].
+  destruct (Nat.ltb _ _); [exact Hc|].
+  match goal with |- context [seq_steps ?f ?l ?s] => pose proof (seq_steps_inv _ f (fun s => coh p d s = true) l s Hc) as Hs end.
+  match type of Hs with ?A -> _ => assert (HA : A) end.
+  { intros a s _ Hcs. now apply rename_key_coh. }
+  specialize (Hs HA).
+  match goal with |- context [seq_steps ?f ?l ?s] => destruct (seq_steps f l s) as [s1 o1] end. cbn [fst] in Hs.
+  destruct o1; try exact Hs. now apply exclude_in_coh.
+Qed.
